@@ -36,6 +36,7 @@ var c17Faults = []struct{ src, msgPart string }{
 	{"@each(v in [1, secretVar])x@end", "secretVar"},
 	{"@for(i = 0; i < secretVar; i++)x@end", "secretVar"},
 	{"{{ x = [[1], [2, secretVar]] }}", "secretVar"},
+	{"{{ secretVar" + strings.Repeat("Long", 50) + " }}", "secretVar"}, // a message of more than 200 bytes
 	{"@dump(secretVar)", "secretVar"},
 	{"@dump(1, [secretVar])", "secretVar"},
 }
@@ -188,7 +189,12 @@ func c17Check(cs c17Case) (ok bool, sig, expected, observed string) {
 		if fe.Kind != KErr {
 			return bad("reference-render-did-not-fail", "String fails as well")
 		}
-		for _, w := range []string{fe.Msg, fe.Path, fmt.Sprintf(":%d", fe.Line)} {
+		// the complete message, taken from the full text of the error (not from an accessor that may abbreviate it)
+		fullMsg := fe.Msg
+		if i := strings.Index(fe.Raw, "]:\n"); i >= 0 {
+			fullMsg = fe.Raw[i+3:]
+		}
+		for _, w := range []string{fullMsg, fe.Path, fmt.Sprintf(":%d", fe.Line)} {
 			if !strings.Contains(body, w) {
 				return bad("debug-page-lacks-detail", "with debug mode on the body contains the message, the path and the line ("+w+")")
 			}
@@ -265,7 +271,7 @@ func init() {
 	p := &Property{
 		ID:    "C17",
 		Level: "exploration",
-		Rule: "complete product: {debug on, off} x {no / valid / missing / run-time-failing / nested-directory custom error page} x {succeeding page; page failing at its start / middle / end after marker output; failing inside its layout, inside an insert, inside a component, after a component, in the second pass of a loop; unknown template} x four error kinds (one whose message contains a per cent sign; pages and the custom error page contain per cent signs too) x {first call, repeated call, after an earlier failing Response served under the opposite debug mode in the same process, after one under the same mode with another error}; plus a non-interference pass: with debug off the body must be byte-identical for every failing template and error kind.  [as built: 14 fault forms (failing identifier / operator / division / modulo, and a failure in a later array element, a later call argument, an object value, a ternary arm, @if / @each / @for headers, a nested assignment, @dump arguments); variants first / second call / prior failing Response under the opposite or same debug mode / loaded under the opposite debug mode then Configure]" +
+		Rule: "complete product: {debug on, off} x {no / valid / missing / run-time-failing / nested-directory custom error page} x {succeeding page; page failing at its start / middle / end after marker output; failing inside its layout, inside an insert, inside a component, after a component, in the second pass of a loop; unknown template} x four error kinds (one whose message contains a per cent sign; pages and the custom error page contain per cent signs too) x {first call, repeated call, after an earlier failing Response served under the opposite debug mode in the same process, after one under the same mode with another error}; plus a non-interference pass: with debug off the body must be byte-identical for every failing template and error kind.  [as built: 15 fault forms (failing identifier / operator / division / modulo, and a failure in a later array element, a later call argument, an object value, a ternary arm, @if / @each / @for headers, a nested assignment, @dump arguments); variants first / second call / prior failing Response under the opposite or same debug mode / loaded under the opposite debug mode then Configure]" +
 			"Non-trivial: the render fails",
 		Bounds: func(tier string) map[string]any {
 			return map[string]any{"configurations": 2 * 5 * len(c17Pages) * len(c17Faults) * 5, "complete": true}
